@@ -9,6 +9,7 @@ import numpy as np
 
 import genmodel as gm
 import c24_approx as aq
+import c24_prepost as pp
 from common import Property, rat, unrat, Infra
 
 RTOL = 1e-9
@@ -69,7 +70,11 @@ class C24(Property):
             "(semi-totals) and components with cs partials; and `approx_seq` (harness/c24_approx.py): "
             "one explicit or implicit component whose partials are declared pair by pair as analytic, "
             "fd or cs, in a star model, with a history of 3-6 compute_totals calls of random of/wrt, "
-            "each compared with the exact derivative with relevance on and off. Every call of "
+            "each compared with the exact derivative with relevance on and off; `prepost` "
+            "(harness/c24_prepost.py): SLSQP runs with group_by_pre_opt_post on small models with "
+            "pre/post components and design variables of both kinds (IndepVarComp outputs, auto_ivc "
+            "inputs) on separate branches, compared with relevance off and with the closed-form "
+            "optimum. Every call of "
             "Component._add_approximations made during a relevance-enabled run is logged (declared "
             "approximated partials, methods holding a scheme before, relevant wrt, approximations "
             "set up) and the history replayed on the Lean model. Non-trivial: some output variable "
@@ -148,6 +153,10 @@ class C24(Property):
                            'nonlinear': rng.choice(['nlbgs', 'newton']) if cyc else None,
                            'jac': rng.choice(['csc', 'dense']),
                            'partials': rng.choice([None, 'dense', 'cs']), 'driver': False}}
+        # family: optimizer runs with group_by_pre_opt_post on models with pre / post components and
+        # design variables of both kinds, each with its own branch (harness/c24_prepost.py)
+        for _ in range(10 if tier == 'quick' else 300):
+            yield {'kind': 'prepost', 'gen_seed': rng.randrange(10 ** 9)}
         # family: one component with a mix of analytic / fd / cs partials and a history of
         # compute_totals calls with varying of/wrt (harness/c24_approx.py)
         for _ in range(12 if tier == 'quick' else 400):
@@ -161,15 +170,17 @@ class C24(Property):
                    'sub_linear': rng.choice([None, None, 'lbgs']),
                    'jac': None, 'partials': rng.choice([None, None, 'dense', 'matfree']),
                    'driver': rng.random() < 0.25}
+            opts = {'safe_indices': True, 'implicit': rng.random() < 0.6,
+                    'n_comps': (3, 6), 'cycles': 'converging' if cyc else False}
             if cfg['driver']:
                 # an optimizer amplifies solver-tolerance noise discontinuously (active-set
                 # decisions): iterates are compared only with direct (non-iterative) linear solves
                 cfg['linear'] = 'direct' if cyc else rng.choice([None, 'runonce', 'direct'])
                 cfg['sub_linear'] = None
-            yield {'gen_seed': rng.randrange(10 ** 9),
-                   'opts': {'safe_indices': True, 'implicit': rng.random() < 0.6,
-                            'n_comps': (3, 6), 'cycles': 'converging' if cyc else False},
-                   'cfg': cfg}
+                if rng.random() < 0.6:
+                    cfg['auto_dv'] = True
+                    opts['auto_ivc_p'] = 0.4
+            yield {'gen_seed': rng.randrange(10 ** 9), 'opts': opts, 'cfg': cfg}
 
     def _md(self, case):
         rng = random.Random(case['gen_seed'])
@@ -251,6 +262,16 @@ class C24(Property):
                 name = gm.out_root_name(md, d['ci'], d['oname'])
                 model.add_design_var(name, lower=-100., upper=100.)
                 d['name'] = name
+            if cfg.get('auto_dv'):
+                # design variables of both kinds: outputs of IndepVarComps and inputs fed by the
+                # automatic independent-variable component
+                # (the one entering the model latest, so that components between the IndepVarComp
+                # design variables and it lie on the IndepVarComp branch only)
+                for cn in sorted(md['conns'], key=lambda cn: -cn['tgt'][0]):
+                    if cn['src'] is None and cn.get('tgt_root'):
+                        model.add_design_var(cn['tgt_root'], lower=-100., upper=100.)
+                        v['desvars'].append({'name': cn['tgt_root']})
+                        break
             r0 = v['responses'][0]
             n0 = gm.out_root_name(md, r0['ci'], r0['oname'])
             model.add_objective(n0, index=0)
@@ -320,9 +341,55 @@ class C24(Property):
                 b.append('approx_seq_one_of_two_schemes_dropped_and_back')
         return b
 
+    # -- family prepost ---------------------------------------------------------------------------
+    def _pp_run_impl(self, case):
+        import contextlib
+        import io
+        spec = pp.gen(case['gen_seed'])
+        res = {}
+        try:
+            with warnings.catch_warnings(), contextlib.redirect_stdout(io.StringIO()):
+                warnings.simplefilter('ignore')
+                res['on'] = pp.run(spec, False)
+                res['off'] = pp.run(spec, True)
+        except Exception as e:
+            res['error'] = type(e).__name__
+            res['msg'] = str(e)[:300]
+        return res
+
+    def _pp_oracle(self, case, impl):
+        if 'error' in impl:
+            return {'what': 'prepost: setup/run_driver raised %s' % impl['error'], 'msg': impl.get('msg')}
+        on, off = impl['on'], impl['off']
+        if off['__failed'][0]:
+            return None         # the optimizer did not converge without pruning either: no premise
+        for k, v in off.items():
+            if not k.startswith('__') and not self._close(on[k], v, 1e-5):
+                return {'what': 'prepost: optimizer run differs with relevance enabled', 'var': k,
+                        'on': on[k], 'off': v, 'pre': on['__pre'], 'post': on['__post']}
+        for k, v in pp.optimum(pp.gen(case['gen_seed'])).items():
+            if not self._close(on[k], v, 1e-4):
+                return {'what': 'prepost: optimizer result with relevance enabled is not the optimum',
+                        'var': k, 'on': on[k], 'optimum': v}
+        return None
+
+    def _pp_bucket(self, case, impl):
+        spec = pp.gen(case['gen_seed'])
+        b = ['prepost', 'prepost_ivc_dvs=%d' % len(spec['ivc']), 'prepost_auto_dvs=%d' % len(spec['auto'])]
+        if spec['ivc'] and spec['auto']:
+            b.append('prepost_both_kinds_of_design_variable')
+        on = impl.get('on', {})
+        if on.get('__pre'):
+            b.append('prepost_has_pre_components')
+        if on.get('__post'):
+            b.append('prepost_has_post_components')
+        return b
+
     def run_impl(self, case):
         if case.get('kind') == 'approx_seq':
             return self._aq_run_impl(case)
+        if case.get('kind') == 'prepost':
+            return self._pp_run_impl(case)
         md, voi = self._md(case)
         res = {}
         try:
@@ -398,6 +465,8 @@ class C24(Property):
     def oracle(self, case, impl):
         if case.get('kind') == 'approx_seq':
             return self._aq_oracle(case, impl)
+        if case.get('kind') == 'prepost':
+            return self._pp_oracle(case, impl)
         md, voi = self._md(case)
         tol = self._tol(case)
         if impl.get('error') == 'AnalysisError':
@@ -429,8 +498,8 @@ class C24(Property):
         return None
 
     def signature(self, case, impl, failure):
-        if case.get('kind') == 'approx_seq':
-            return {'what': failure.get('what'), 'family': 'approx_seq'}
+        if case.get('kind') in ('approx_seq', 'prepost'):
+            return {'what': failure.get('what'), 'family': case['kind']}
         sig = {'what': failure.get('what'), 'linear': case['cfg']['linear'],
                'mode': case['cfg']['mode'],
                'sub_krylov': case['cfg'].get('sub_linear') == 'krylov'}
@@ -447,6 +516,9 @@ class C24(Property):
         return sig
 
     def nontrivial(self, case, impl):
+        if case.get('kind') == 'prepost':
+            on = impl.get('on', {})
+            return bool(on.get('__pre') or on.get('__post'))
         if case.get('kind') == 'approx_seq':
             return any(set(c.get('relevant', [])) != {w for _, w, _ in c.get('decls', [])}
                        for calls in impl.get('on', {}).get('approx_log', {}).values() for c in calls)
@@ -456,6 +528,8 @@ class C24(Property):
     def bucket(self, case, impl):
         if case.get('kind') == 'approx_seq':
             return self._aq_bucket(case, impl)
+        if case.get('kind') == 'prepost':
+            return self._pp_bucket(case, impl)
         md, voi = self._md(case)
         cfg = case['cfg']
         b = ['solver_reported_failure' if impl.get('error') == 'AnalysisError' else
@@ -467,6 +541,8 @@ class C24(Property):
             b.append('implicit_with_coupled_outputs')
         if 'drv_on' in impl:
             b.append('driver_run_compared')
+            if cfg.get('auto_dv'):
+                b.append('driver_run_with_auto_ivc_and_ivc_design_vars')
         if 'drv_error' in impl:
             b.append('driver_run_error')
         if cfg.get('sub_approx'):
@@ -492,6 +568,8 @@ class C24(Property):
                     [off[(d['ci'], d['oname'])] + q for q in dpos]
 
     def model_requests(self, case, impl):
+        if case.get('kind') == 'prepost':
+            return []
         if case.get('kind') == 'approx_seq':
             return [] if 'error' in impl else [r for _, r, _ in self._approx_requests(impl)]
         md, voi = self._md(case)
@@ -559,6 +637,8 @@ class C24(Property):
         return None
 
     def compare(self, case, impl, answers):
+        if case.get('kind') == 'prepost':
+            return None
         if case.get('kind') == 'approx_seq':
             return None if 'error' in impl or not answers else self._compare_approx(impl, answers)
         md, voi = self._md(case)
